@@ -461,6 +461,12 @@ INF_PATTERNS = (
     (0.0, INF, -INF, NAN, INF, 1.0, -INF, -INF, 2.0),
     (INF, INF, NAN, -INF, 0.0, INF, NAN, NAN, 1.0),
 )
+# infinities next to finite values with the INTERPOLATING method: NumPy's own answer (finite, inf or nan) is the oracle
+INF_LINEAR_PATTERNS = (
+    # (infinities only at the extremes and q = 50: the median's two neighbours are finite, so NumPy's lerp does not produce its inf * 0 = nan artefact)
+    (1.0, 2.0, 3.0, 4.0, INF, -INF, 1.0, NAN, 2.0, INF),
+    (-INF, 0.0, 2.0, 3.0, INF, INF, 1.0, 1.0, 5.0, -INF),
+)
 NQ = ((50, "50"), ([0, 25, 100], "[0,25,100]"), ([30.0, 30.0], "[30.,30.]"), (100, "100"), ([12.5], "[12.5]"), (np.array([0.0, 62.5]), "array[0.,62.5]"))
 
 
@@ -543,6 +549,7 @@ def obligations(tier):
             mk_nanpercentile("nan", [(3,), (2, 2), (1, 3), (2, 3)], 2, npat=3),
             mk_nanpercentile("nan3d", [(2, 2, 2)], 2, npat=2, kaxes=(1, 2, 2)),
             mk_nanpercentile("inf", [(3,), (2, 2)], 2, npat=2, methods=PICKING, patterns=INF_PATTERNS),
+            mk_nanpercentile("inf,linear", [(2, 5)], 2, npat=2, methods=("linear",), patterns=INF_LINEAR_PATTERNS, nq=1),
         ]
     return [
         mk_percentile("float", F3, "f8", [(1, 1, 3), (2, 1, 3), (3, 1, 3)], (0, 1, 2, 4, 6, 7, 9), METHODS),
